@@ -1,7 +1,251 @@
-import Atomman.Prelude
-open Atomman
+import Atomman.C18
+open Atomman Atomman.C18
 
-/-- stub: replaced when the C18 model is built. -/
-def handleC18 (_toks : List String) : String := err "op"
+/-! line-protocol driver of the C18 model at `K := Rat` (see harness/props/c18.py for the ops). -/
+
+namespace C18Drv
+
+abbrev Q := Rat
+
+def takeN (n : Nat) (xs : List Q) : Option (List Q × List Q) :=
+  if xs.length < n then none else some (xs.take n, xs.drop n)
+
+def take1 (xs : List Q) : Option (Q × List Q) :=
+  match xs with
+  | a :: r => some (a, r)
+  | [] => none
+
+def takeNat (xs : List Q) : Option (Nat × List Q) :=
+  match xs with
+  | a :: r => if a.den = 1 ∧ 0 ≤ a.num then some (a.num.toNat, r) else none
+  | [] => none
+
+def takeBool (xs : List Q) : Option (Bool × List Q) :=
+  match xs with
+  | a :: r => if a = 1 then some (true, r) else if a = 0 then some (false, r) else none
+  | [] => none
+
+def takeV3 (xs : List Q) : Option (V3 Q × List Q) :=
+  match xs with
+  | a :: b :: c :: r => some (⟨a, b, c⟩, r)
+  | _ => none
+
+def takeM3 (xs : List Q) : Option (M3 Q × List Q) := do
+  let (a, r) ← takeV3 xs
+  let (b, r) ← takeV3 r
+  let (c, r) ← takeV3 r
+  pure (⟨a, b, c⟩, r)
+
+def toV3s : List Q → List (V3 Q)
+  | a :: b :: c :: r => ⟨a, b, c⟩ :: toV3s r
+  | _ => []
+
+def toPairs : List Q → List (Q × Q)
+  | a :: b :: r => (a, b) :: toPairs r
+  | _ => []
+
+def flatV3 (l : List (V3 Q)) : List Q := l.flatMap V3.toList
+def flatPairs (l : List (Q × Q)) : List Q := l.flatMap (fun p => [p.1, p.2])
+
+def takeV3s (n : Nat) (xs : List Q) : Option (List (V3 Q) × List Q) := do
+  let (a, r) ← takeN (3 * n) xs
+  pure (toV3s a, r)
+
+def chunk (k : Nat) : Nat → List Q → List (List Q)
+  | 0, _ => []
+  | n + 1, l => l.take k :: chunk k n (l.drop k)
+
+/-- function from an association table keyed by the exact argument. -/
+def tableFn (keys vals : List Q) (x : Q) : Q := ((keys.zip vals).lookup x).getD 0
+
+def fl (x : Q) : Int := x.floor
+def cl (x : Q) : Int := x.ceil
+
+def done (r : Option String) : String := r.getD (err "format")
+
+/-- the four-node table of one query point. -/
+def quadFn (a1w a2w f00 f01 f10 f11 : Q) (a b : Q) : Q :=
+  if a = a1w then (if b = a2w then f00 else f01) else (if b = a2w then f10 else f11)
+
+def egsfPoint (c1 c2 : Q) (row : List Q) : List Q :=
+  match row with
+  | [a1, a2, f00, f01, f10, f11] =>
+    let a1w := wrap fl c1 a1
+    let a2w := wrap fl c2 a2
+    [a1w, a2w, wgt c1 a1w, wgt c2 a2w, E fl (quadFn a1w a2w f00 f01 f10 f11) c1 c2 a1 a2]
+  | _ => []
+
+def handle (toks : List String) : String :=
+  match toks with
+  | [] => err "op"
+  | op :: rest =>
+    match parseRats? rest with
+    | none => err "format"
+    | some xs =>
+      match op with
+      | "fit" => done do
+          let (n, r) ← takeNat xs
+          let (a1, r) ← takeN n r
+          let (a2, r) ← takeN n r
+          let (e, _) ← takeN n r
+          let D : List (Node Q) := (a1.zip (a2.zip e)).map (fun t => ⟨t.1, t.2.1, t.2.2⟩)
+          match fitNodes? D, cushion? a1, cushion? a2 with
+          | some N, some c1, some c2 =>
+            pure (showRats ([c1, c2, (N.length : Q)] ++ N.map (·.a1) ++ N.map (·.a2) ++ N.map (·.e)))
+          | _, _, _ => pure (err "value")
+      | "egsf" => done do
+          let (c1, r) ← take1 xs
+          let (c2, r) ← take1 r
+          let (m, r) ← takeNat r
+          let (rows, _) ← takeN (6 * m) r
+          pure (showRats ((chunk 6 m rows).flatMap (egsfPoint c1 c2)))
+      | "delta" => done do
+          let (m, r) ← takeNat xs
+          let (rows, _) ← takeN (2 * m) r
+          pure (showRats ((toPairs rows).flatMap (fun p => [wrapN fl cl p.1, wrapN fl cl p.2])))
+      | "cart" => done do
+          let (v, r) ← takeV3 xs
+          let (B, _) ← takeM3 r
+          pure (showRats (cartOf v B).toList)
+      | "a2p" => done do
+          let (A1, r) ← takeV3 xs
+          let (A2, r) ← takeV3 r
+          let (m, r) ← takeNat r
+          let (rows, _) ← takeN (2 * m) r
+          pure (showRats (flatV3 ((toPairs rows).map (a12ToPos A1 A2))))
+      | "p2a" => done do
+          let (A1, r) ← takeV3 xs
+          let (A2, r) ← takeV3 r
+          let (m, r) ← takeNat r
+          let (ps, _) ← takeV3s m r
+          match ps.mapM (posToA12? A1 A2) with
+          | some l => pure (showRats (flatPairs l))
+          | none => pure (err "assert")
+      | "p2xy" | "xy2p" => done do
+          let (X, r) ← takeV3 xs
+          let (A1, r) ← takeV3 r
+          let (A2, r) ← takeV3 r
+          let (nn, r) ← take1 r
+          let (nx, r) ← take1 r
+          let (ny, r) ← take1 r
+          let (nz, r) ← take1 r
+          let (m, r) ← takeNat r
+          let Nh := planeNormal A1 A2 nn
+          if !(xvectOk X Nh) then pure (err "value") else
+          let T := xyTransform X Nh nx ny nz
+          if op = "p2xy" then do
+            let (ps, _) ← takeV3s m r
+            pure (showRats (flatPairs (ps.map (posToXY T))))
+          else do
+            let (rows, _) ← takeN (2 * m) r
+            pure (showRats (flatV3 ((toPairs rows).map (xyToPos T))))
+      | "dens" => done do
+          let (cd, r) ← takeBool xs
+          let (n, r) ← takeNat r
+          let (x, r) ← takeN n r
+          let (d, _) ← takeV3s n r
+          pure (showRats (flatV3 (disldensity cd x d)))
+      | "elastic" => done do
+          let (cd, r) ← takeBool xs
+          let (pi, r) ← take1 r
+          let (n, r) ← takeNat r
+          let (x, r) ← takeN n r
+          let (d, r) ← takeV3s n r
+          let (Kt, r) ← takeM3 r
+          let dx := gridStep x
+          let nρ := (disldensity cd x d).length
+          let (logs, _) ← takeN nρ r
+          let keys := (List.range nρ).map (fun k => ((k + 1 : Nat) : Q) * dx)
+          pure (showRat (elasticEnergy (tableFn keys logs) pi Kt cd x d))
+      | "long" => done do
+          let (pi, r) ← take1 xs
+          let (logL, r) ← take1 r
+          let (b, r) ← takeV3 r
+          let (Kt, _) ← takeM3 r
+          pure (showRat (longrangeEnergy pi logL Kt b))
+      | "stress" => done do
+          let (full, r) ← takeBool xs
+          let (cd, r) ← takeBool r
+          let (n, r) ← takeNat r
+          let (x, r) ← takeN n r
+          let (d, r) ← takeV3s n r
+          let (τ1, _) ← takeV3 r
+          pure (showRat (stressEnergy full cd τ1 x d))
+      | "surface" => done do
+          let (cd, r) ← takeBool xs
+          let (n, r) ← takeNat r
+          let (x, r) ← takeN n r
+          let (d, r) ← takeV3s n r
+          let (β, _) ← takeM3 r
+          pure (showRat (surfaceEnergy cd β x d))
+      | "nonlocal" => done do
+          let (n, r) ← takeNat xs
+          let (x, r) ← takeN n r
+          let (d, r) ← takeV3s n r
+          let (k, r) ← takeNat r
+          let (αs, _) ← takeN k r
+          pure (showRat (nonlocalEnergy αs x d))
+      | "misfit" => done do
+          let (T, r) ← takeM3 xs
+          let (A1, r) ← takeV3 r
+          let (A2, r) ← takeV3 r
+          let (c1, r) ← take1 r
+          let (c2, r) ← take1 r
+          let (n, r) ← takeNat r
+          let (x, r) ← takeN n r
+          let (rows, _) ← takeN (6 * n) r
+          let rws := chunk 6 n rows
+          let d : List (V3 Q) := rws.map (fun w => ⟨w.getD 0 0, 0, w.getD 1 0⟩)
+          let keys : List (V3 Q) := d.map (fun δ => M3.vecMul ⟨δ.x, 0, δ.z⟩ T)
+          let gam : V3 Q → Q := fun p =>
+            match (keys.zip rws).lookup p with
+            | some w =>
+              let a := posToA12 A1 A2 p
+              let a1w := wrap fl c1 a.1
+              let a2w := wrap fl c2 a.2
+              E fl (quadFn a1w a2w (w.getD 2 0) (w.getD 3 0) (w.getD 4 0) (w.getD 5 0)) c1 c2 a.1 a.2
+            | none => 0
+          pure (showRat (misfitEnergy gam T x d))
+      | "recompose" => done do
+          let (k, r) ← takeNat xs
+          let (res, r) ← takeN k r
+          let (first, r) ← takeV3 r
+          let (last, _) ← takeV3 r
+          if k % 2 ≠ 0 then pure (err "value") else
+          pure (showRats (flatV3 (recompose res first last)))
+      | "decompose" => done do
+          let (n, r) ← takeNat xs
+          let (d, _) ← takeV3s n r
+          pure (showRats (decompose d))
+      | "arctan" => done do
+          let (n, r) ← takeNat xs
+          let (x, r) ← takeN n r
+          let (atv, r) ← takeN n r
+          let (pi, r) ← take1 r
+          let (b, r) ← takeV3 r
+          let (center, r) ← take1 r
+          let (hw, r) ← take1 r
+          let (nrm, r) ← takeBool r
+          let (sh, r) ← takeBool r
+          let (normB, r) ← take1 r
+          let (normLast, _) ← take1 r
+          let keys := x.map (fun xi => (xi - center) / hw)
+          pure (showRats (flatV3 (pnArctanDisregistry (tableFn keys atv) pi x b center hw nrm sh normB normLast)))
+      | "arctandens" => done do
+          let (n, r) ← takeNat xs
+          let (x, r) ← takeN n r
+          let (pi, r) ← take1 r
+          let (b, r) ← takeV3 r
+          let (center, r) ← take1 r
+          let (hw, r) ← take1 r
+          let (nrm, r) ← takeBool r
+          let (normB, r) ← take1 r
+          let (normInt, _) ← take1 r
+          pure (showRats (flatV3 (pnArctanDisldensity pi x b center hw nrm normB normInt)))
+      | _ => err "op"
+
+end C18Drv
+
+def handleC18 (toks : List String) : String := C18Drv.handle toks
 
 def main : IO Unit := runDriver handleC18
